@@ -7,7 +7,7 @@ use sos_test_utils::mock;
 use sos_vault::secret::{Secret, SecretMeta, SecretRow};
 use std::collections::HashMap;
 
-pub const TOKENS: [&str; 9] = ["v1", "v2", "v3", "v4", "v5", "v6", "v7", "v8", "v9"];
+pub const TOKENS: [&str; 10] = ["v1", "v2", "v3", "v4", "v5", "v6", "v7", "v8", "v9", "v1t"];
 
 /// Directory for the plaintext sources of external files (outside every
 /// account directory).
@@ -68,6 +68,13 @@ pub fn value(token: &str) -> (SecretMeta, Secret) {
     let label = format!("label {} {}", token, marker("label", token));
     let (mut meta, secret) = match token {
         "v1" => mock::note(&label, &format!("note text {}", marker("field", token))),
+        // the same secret as v1 (label, kind, value) with one more tag: an update
+        // between v1 and v1t changes the meta data only
+        "v1t" => {
+            let (mut m, s) = value("v1");
+            m.tags_mut().insert("extra-tag".to_string());
+            return (m, s);
+        }
         "v2" => {
             let (mut m, s) = mock::login(
                 &label,
